@@ -75,6 +75,8 @@ ROOTS = [
     ('tanh_zero', lambda x, d: anp.tanh(x) - d, N('sub', N('tanh', V(1)), V(2)), N('arctanh', V(1)), [0.0], 0.3),
     ('expm1_zero', lambda x, d: anp.exp(x) - 1.0 - d, N('sub', N('sub', N('exp', V(1)), C(1.0)), V(2)), N('log', N('add', C(1.0), V(1))), [0.0], 0.5),
     ('lin_zero', lambda x, d: d[0] + d[1] * x, N('add', V(2), N('mul', V(3), V(1))), N('neg', N('div', V(1), V(2))), [0.0, 1.6], 1.0),
+    # a root far from the default starting point (1.0) of a steep function: Newton's first step overshoots into the overflow region
+    ('expo_far', _make_expo(-1.0), N('sub', N('exp', N('mul', C(-1.0), V(1))), V(2)), N('mul', C(-1.0), N('log', V(1))), [50.0], None),
     ('vec3', lambda x, d: d[0] * x ** 3 + d[1] * x - d[2], N('sub', N('add', N('mul', V(2), N('pow', V(1), C(3))), N('mul', V(3), V(1))), V(4)), None, [0.7, 1.3, 2.9], 1.0),
 ]
 
@@ -93,7 +95,8 @@ def root_cases(rng, ctx, reps):
                 ds[-1] = pe.cov_Obs(dvals[-1], (0.02 * dvals[-1]) ** 2, 'droot')
             arg = ds[0] if len(ds) == 1 else ds
             res = _call(lambda: pe.roots.find_root(arg, f, guess=guess) if guess is not None else pe.roots.find_root(arg, f))
-            c = {'id': 'root-%d-%s-%s' % (rep, name, cls), 'ev': 'root', 'mode': 'root', 'f': gen.strip(fe), 'ops': [project_obs(o) for o in ds], 'res': res}
+            c = {'id': 'root-%d-%s-%s' % (rep, name, cls), 'ev': 'root', 'mode': 'root', 'f': gen.strip(fe), 'ops': [project_obs(o) for o in ds], 'res': res,
+                 'guess': rat(float(guess) if guess is not None else 1.0)}
             if inv is not None:
                 c['inv'] = gen.strip(inv)
             cases.append(c)
